@@ -32,17 +32,13 @@ def WithinR (items : List (Item N)) (st : St N K W) : Prop :=
 def WithinS (items : List (Item N)) (st : St N K W) : Prop :=
   ∀ k, has k st.strats = true → o.saveF = true ∧ ∃ it ∈ items, k = sk cfg it
 
-/-- the live registry names every item that has something stored -/
-def RegCov (items : List (Item N)) (st : St N K W) : Prop :=
-  ∀ it ∈ items, ((∃ p, has (rk cfg it p) st.recs = true) ∨ has (sk cfg it) st.strats = true) →
-    it.s ∈ st.regS ∧ it.d ∈ st.regD
-
 /-! ### preservation by the loop -/
 
 theorem runItems_honestR (items work : List (Item N)) (hsub : ∀ it ∈ work, it ∈ items)
     (hk : KeyInj cfg items) (r : Run N K W) (h : HonestR cfg L items r.st) :
     HonestR cfg L items (runItems cfg L o fail work r).st := by
-  apply runItems_st cfg L o fail (HonestR cfg L items) work _ _ r h
+  apply runItems_st cfg L o fail (HonestR cfg L items) work _ _ _ r h
+  · intro a _ st hst; exact hst
   · intro a _ _ _ st hst it hit p rr hg
     exact hst it hit p rr (by simpa using hg)
   · intro a ha pa _ st hst it hit p rr hg
@@ -61,7 +57,8 @@ theorem runItems_honestR (items work : List (Item N)) (hsub : ∀ it ∈ work, i
 theorem runItems_honestS (items work : List (Item N)) (hsub : ∀ it ∈ work, it ∈ items)
     (hk : KeyInj cfg items) (r : Run N K W) (h : HonestS cfg L items r.st) :
     HonestS cfg L items (runItems cfg L o fail work r).st := by
-  apply runItems_st cfg L o fail (HonestS cfg L items) work _ _ r h
+  apply runItems_st cfg L o fail (HonestS cfg L items) work _ _ _ r h
+  · intro a _ st hst; exact hst
   · intro a ha _ _ st hst it hit sr hg
     rw [writeStrat_strats] at hg
     by_cases hkk : sk cfg it = sk cfg a
@@ -79,7 +76,8 @@ theorem runItems_honestS (items work : List (Item N)) (hsub : ∀ it ∈ work, i
 
 theorem runItems_withinR (items : List (Item N)) (r : Run N K W) (h : WithinR cfg o items r.st) :
     WithinR cfg o items (runItems cfg L o fail items r).st := by
-  apply runItems_st cfg L o fail (WithinR cfg o items) items _ _ r h
+  apply runItems_st cfg L o fail (WithinR cfg o items) items _ _ _ r h
+  · intro a _ st hst; exact hst
   · intro a _ _ _ st hst k hk
     exact hst k (by simpa using hk)
   · intro a ha pa hpa st hst k hk
@@ -94,7 +92,8 @@ theorem runItems_withinR (items : List (Item N)) (r : Run N K W) (h : WithinR cf
 
 theorem runItems_withinS (items : List (Item N)) (r : Run N K W) (h : WithinS cfg o items r.st) :
     WithinS cfg o items (runItems cfg L o fail items r).st := by
-  apply runItems_st cfg L o fail (WithinS cfg o items) items _ _ r h
+  apply runItems_st cfg L o fail (WithinS cfg o items) items _ _ _ r h
+  · intro a _ st hst; exact hst
   · intro a ha hs _ st hst k hk
     rw [writeStrat_strats, has_put] at hk
     rcases hk with e | hk
@@ -105,51 +104,23 @@ theorem runItems_withinS (items : List (Item N)) (r : Run N K W) (h : WithinS cf
 
 theorem runItems_hasR (items : List (Item N)) (k : K) (r : Run N K W) (h : has k r.st.recs = true) :
     has k (runItems cfg L o fail items r).st.recs = true := by
-  apply runItems_st cfg L o fail (fun st => has k st.recs = true) items _ _ r h
+  apply runItems_st cfg L o fail (fun st => has k st.recs = true) items _ _ _ r h
+  · intro a _ st hst; exact hst
   · intro a _ _ _ st hst; simpa using hst
   · intro a _ pa _ st hst; rw [writeRec_recs]; exact has_put_mono _ _ hst
 
 theorem runItems_hasS (items : List (Item N)) (k : K) (r : Run N K W) (h : has k r.st.strats = true) :
     has k (runItems cfg L o fail items r).st.strats = true := by
-  apply runItems_st cfg L o fail (fun st => has k st.strats = true) items _ _ r h
+  apply runItems_st cfg L o fail (fun st => has k st.strats = true) items _ _ _ r h
+  · intro a _ st hst; exact hst
   · intro a _ _ _ st hst; rw [writeStrat_strats]; exact has_put_mono _ _ hst
   · intro a _ pa _ st hst; simpa using hst
 
 theorem runItems_nodupR (items : List (Item N)) (r : Run N K W) (h : (keys r.st.recs).Nodup) :
     (keys (runItems cfg L o fail items r).st.recs).Nodup := by
-  apply runItems_st cfg L o fail (fun st => (keys st.recs).Nodup) items _ _ r h
+  apply runItems_st cfg L o fail (fun st => (keys st.recs).Nodup) items _ _ _ r h
+  · intro a _ st hst; exact hst
   · intro a _ _ _ st hst; simpa using hst
   · intro a _ pa _ st hst; rw [writeRec_recs]; exact nodup_keys_put _ _ _ hst
-
-theorem runItems_regCov (items work : List (Item N)) (hsub : ∀ it ∈ work, it ∈ items)
-    (hk : KeyInj cfg items) (r : Run N K W) (h : RegCov cfg items r.st) :
-    RegCov cfg items (runItems cfg L o fail work r).st := by
-  apply runItems_st cfg L o fail (RegCov cfg items) work _ _ r h
-  · intro a ha _ _ st hst it hit hex
-    simp only [writeStrat_recs, writeStrat_strats, writeStrat_regS, writeStrat_regD] at hex ⊢
-    have old : ((∃ p, has (rk cfg it p) st.recs = true) ∨ has (sk cfg it) st.strats = true) →
-        it.s ∈ addNew a.s st.regS ∧ it.d ∈ addNew a.d st.regD := fun hh =>
-      ⟨mem_addNew_of_mem _ (hst it hit hh).1, mem_addNew_of_mem _ (hst it hit hh).2⟩
-    rcases hex with hex | hex
-    · exact old (Or.inl hex)
-    · rw [has_put] at hex
-      rcases hex with e | hex
-      · have := hk.strats it hit a (hsub a ha) e
-        subst this
-        exact ⟨mem_addNew_self _ _, mem_addNew_self _ _⟩
-      · exact old (Or.inr hex)
-  · intro a ha pa _ st hst it hit hex
-    simp only [writeRec_recs, writeRec_strats, writeRec_regS, writeRec_regD] at hex ⊢
-    have old : ((∃ p, has (rk cfg it p) st.recs = true) ∨ has (sk cfg it) st.strats = true) →
-        it.s ∈ addNew a.s st.regS ∧ it.d ∈ addNew a.d st.regD := fun hh =>
-      ⟨mem_addNew_of_mem _ (hst it hit hh).1, mem_addNew_of_mem _ (hst it hit hh).2⟩
-    rcases hex with ⟨p, hex⟩ | hex
-    · rw [has_put] at hex
-      rcases hex with e | hex
-      · have := (hk.recs it hit a (hsub a ha) p pa e).1
-        subst this
-        exact ⟨mem_addNew_self _ _, mem_addNew_self _ _⟩
-      · exact old (Or.inl ⟨p, hex⟩)
-    · exact old (Or.inr hex)
 
 end SkVerif.Orch.Lem
